@@ -207,7 +207,10 @@ CLAIMED.update({
             "the fused scaffolds; fusion keys pairwise distinct for every run; a repeated name is one of three named collisions; "
             "multi-haplotype maps: a well-interleaved map gives one group per chromosome, homologues and their unlocs share the "
             "number, ranking by first-haplotype sequence length (ties in map order), lengths of other haplotypes never matter, "
-            "A/B suffixes; "
+            "A/B suffixes; C10_chromosome_numbers, END TO END for single-haplotype maps with pairwise distinct Pretext scaffold "
+            "names: rank-1 scaffolds are named <prefix><k>[_unloc_<m>], the chromosomes (one per Pretext scaffold, unlocs "
+            "included) are numbered 1..n without holes by non-increasing sequence length -- the distinct-names hypothesis "
+            "forced by the proof, the statement without it refuted (C10_chromosome_numbers_need_distinct_map_names); "
             "rename_by_size = same names, objects in non-increasing length, stable; H_n / _unloc_n handed out "
             "without holes; chromosome groups numbered 1..n by non-increasing length (stable); single-haplotype grouping total "
             "and renaming names only; effect of naming on <Pretext name><suffix>; A,B,.. suffixes; output order total (C20) with "
